@@ -52,6 +52,9 @@ class Inbox:
 
     def install(self, eng, cls="IQueue"):
         def q_put(e, o, a, k):
+            # hand-over is lossless: a put that can time out or not block can drop a message (or the stop marker)
+            e.prove("C12:queue-put-blocks-without-timeout", k.get("timeout") is None and k.get("block", True) is True and len(a) == 1,
+                    props=("C12", "C13", "C14"))
             self.puts.append(a[0])
             e.st.ghost.setdefault("events", []).append(("put", o, a[0]))
             return None
@@ -75,6 +78,11 @@ def setup(sess, inline=()):
 
     def th(name):
         def f(e, o, a, k):
+            if name == "Thread.__init__":
+                # "every worker thread terminates by itself" is about threads the interpreter waits for: a daemon thread
+                # is killed, not finished, when the main thread ends
+                dm = k.get("daemon")
+                e.prove("C12:worker-threads-are-not-daemon-threads", dm is None or dm is False, props=("C12", "C13", "C14"))
             if name == "join":
                 # the wait-for argument (DESIGN 6) needs join() to WAIT for the thread: a timeout turns it into a poll
                 tmo = a[0] if a else k.get("timeout")
@@ -92,6 +100,13 @@ def setup(sess, inline=()):
     nt = collections.namedtuple("_Detection", "id start end duration")
     eng.lib["collections.namedtuple"] = lambda e, a, k: LibCallable("_Detection", lambda e2, a2, k2: nt(*a2, **k2))
     return eng
+
+
+def queue_ctor(e, a, k):
+    """Queue(): the inbox is unbounded (a bounded inbox makes the producer block or lose messages)."""
+    ms = a[0] if a else k.get("maxsize", 0)
+    e.prove("C12:inbox-is-an-unbounded-queue", isinstance(ms, int) and ms <= 0, props=("C12", "C13", "C14"))
+    return e.st.new_obj("IQueue", {})
 
 
 def worker_obj(eng, cls, fields=None):
@@ -437,7 +452,7 @@ def unit_tokenizer_init_read(sess, ctx):
             calls = []
             G = GenVal("abstract", name="regions", next_fn=None)
             eng.contracts["auditok.core.split"] = lambda e, f, sv, a, k: calls.append((tuple(a), dict(k))) or G
-            eng.ctor_contracts["Queue"] = lambda e, a, k: e.st.new_obj("IQueue", {})
+            eng.ctor_contracts["Queue"] = queue_ctor
             me = eng.st.new_obj("TokenizerWorker", {})
             obs = Opq(tag="observers")
             # every keyword split() reads for a reader input, each with a symbolic presence flag
@@ -842,7 +857,7 @@ def unit_saver_init(sess, ctx):
     def run_(eng):
         gh = eng.st.ghost
         log = []
-        eng.ctor_contracts["Queue"] = lambda e, a, k: e.st.new_obj("IQueue", {})
+        eng.ctor_contracts["Queue"] = queue_ctor
         w = eng.st.new_obj("IWaveWriter", {})
         eng.lib["wave.open"] = lambda e, a, k: log.append(("wave.open", tuple(a))) or w
         for nm in ("setframerate", "setsampwidth", "setnchannels"):
